@@ -215,16 +215,12 @@ def reset_z(
     tableau, outcome, probabilistic = z_measurement_gate(
         tableau, qubit_position, measurement_determinism
     )
-    if probabilistic:
-        tableau.phase[probabilistic] = intended_state
-        tableau.iphase[probabilistic] = 0
+    # the qubit is now in the Z eigenstate given by the outcome (drawn or forced); flipping it with an X gate also
+    # keeps the signs of the other generators consistent with that outcome
+    if outcome == intended_state:
         return tableau
-
     else:
-        if outcome == intended_state:
-            return tableau
-        else:
-            return x_gate(tableau, qubit_position)
+        return x_gate(tableau, qubit_position)
 
 
 def reset_x(
